@@ -178,6 +178,31 @@ def opC06Schema (j : Json) : Except String Json := do
   | .error e => pure (c06ErrJson e)
   | .ok ps => pure (Json.mkObj [("results", jarr (reqs.map fun r => pairsJson (resolveSchema ct ps r)))])
 
+-- `{"op":"c06.program","store":[[[k,v]…]…],"calls":[{"md":null|i,"routing":null|str}…],"extra":[[k,v]]}`: per call the
+-- routing-header values a gRPC / an HTTP server sees, and the caller's metadata objects after the program
+open Model.Routing in
+def opC06Program (j : Json) : Except String Json := do
+  let store ← (← getArrL j "store").mapM fun o => do
+    (← o.getArr?).toList.mapM fun p => do
+      match (← p.getArr?).toList with
+      | [Json.str k, Json.str v] => pure (k.toList, v.toList)
+      | _ => throw "bad pair"
+  let extra ← c06Pairs j "extra"
+  let calls ← (← getArrL j "calls").mapM fun c => do
+    let routing := match c.getObjVal? "routing" with
+      | .ok (Json.str s) => some s.toList
+      | _ => none
+    let md := match c.getObjValAs? Nat "md" with
+      | .ok i => some i
+      | .error _ => none
+    pure (⟨routing, md⟩ : Call)
+  let (wires, st) := runProgram extra store calls
+  pure (Json.mkObj [
+    ("wires", jarr (wires.map fun w => Json.mkObj [
+      ("grpc", jarr ((grpcValues w hdrName).map jstr)),
+      ("rest", optJson jstr (restValue w hdrName))])),
+    ("store", jarr (st.map pairsJson))])
+
 -- `{"op":"c06.literal","lit":"v1.0"}`: the pattern of a template that is ONE literal segment, as the code inserts it
 open Model.Routing in
 def opC06Literal (j : Json) : Except String Json := do
@@ -192,6 +217,6 @@ def opC06Literal (j : Json) : Except String Json := do
 def opsC06 : List (String × (Json → Except String Json)) :=
   [("c06.template", opC06Template), ("c06.explicit", opC06Explicit), ("c06.schema", opC06Schema),
    ("c06.implicit", opC06Implicit), ("c06.encode", opC06Encode), ("c06.transport", opC06Transport),
-   ("c06.literal", opC06Literal)]
+   ("c06.literal", opC06Literal), ("c06.program", opC06Program)]
 
 end GapicModel.Driver
